@@ -5,6 +5,7 @@ import (
 	"strings"
 
 	"golang.org/x/tools/go/packages"
+	"golang.org/x/tools/go/ssa"
 )
 
 // c14MatcherNamesake (MATCHER-NAMESAKE; C14, after round-4 seed C14-k): the exported path matchers of the storage
@@ -26,7 +27,45 @@ func c14MatcherNamesake(c *Ctx, pk *packages.Package) {
 		if sf.Object() == nil || !sf.Object().Exported() || !strings.HasPrefix(sf.Name(), "Match") || sf.Signature.Recv() != nil {
 			continue
 		}
-		for _, f := range allSSAFuncs(sf) {
+		// the matching function: closures of the constructor, and functions it refers to as values (a bound method
+		// value `operand(dir).containsPath`, a named function), followed into the package's own code one level
+		seen := map[*ssa.Function]bool{}
+		var parts []*ssa.Function
+		var add func(f *ssa.Function, depth int)
+		add = func(f *ssa.Function, depth int) {
+			if f == nil || seen[f] || f.Blocks == nil {
+				return
+			}
+			seen[f] = true
+			parts = append(parts, f)
+			for _, a := range f.AnonFuncs {
+				add(a, depth)
+			}
+			if depth == 0 {
+				return
+			}
+			for _, b := range f.Blocks {
+				for _, ins := range b.Instrs {
+					for _, op := range ins.Operands(nil) {
+						if op == nil || *op == nil {
+							continue
+						}
+						switch g := (*op).(type) {
+						case *ssa.Function:
+							if g.Pkg == nil || g.Pkg == sf.Pkg {
+								add(g, depth-1)
+							}
+						case *ssa.MakeClosure:
+							if gf, ok := g.Fn.(*ssa.Function); ok {
+								add(gf, depth-1)
+							}
+						}
+					}
+				}
+			}
+		}
+		add(sf, 3)
+		for _, f := range parts {
 			for _, call := range callsIn(f) {
 				o := staticCalleeObj(call.Call)
 				if o == nil || o.Pkg() == nil || !strings.HasSuffix(o.Pkg().Path(), "pkg/normalpath") {
